@@ -82,3 +82,29 @@ func VerifC17_RegistrationsVsREST() {
 	vnd.Assert(left == 0 && done == 2, "C17.registrations.everything-returns")
 	vnd.Cover("C17.registrations.overlap-explored")
 }
+
+// VerifC17_TwoRegistrationRounds: two registration rounds overlap - what the controller asks for through
+// the public entry point for newly seen accounts while the periodic round is under way (the periodic
+// round's single-flight guard does not cover the public entry point). Both rounds sign afresh (nothing
+// is cached yet), one validator each: no unsynchronised conflicting accesses to the maps the rounds
+// share, and both return.
+func VerifC17_TwoRegistrationRounds() {
+	util.VerifResetBuilderClients()
+	relay := &c11Relay{name: c11RelayNames[0]}
+	util.VerifSetBuilderClient(relay.name, relay)
+	cfg := &c11Config{unresolvable: map[uint64]bool{}, relays: map[uint64][]string{1: {relay.name}, 2: {relay.name}}, settings: map[uint64]map[string]c11Setting{1: {}, 2: {}}}
+	rounds := make([]map[phase0.ValidatorIndex]e2wtypes.Account, 2)
+	for i := 0; i < 2; i++ {
+		acc := &vstub.Account{Tag: uint64(i + 1), VIndex: uint64(i + 1), Nm: "acc"}
+		acc.Key.B[0] = byte(0x40 + i)
+		rounds[i] = map[phase0.ValidatorIndex]e2wtypes.Account{phase0.ValidatorIndex(i + 1): acc}
+	}
+	s := relayNew(vstub.NewChainTime(0))
+	s.executionConfig = cfg
+	done := 0
+	go func() { _ = s.submitValidatorRegistrationsForAccounts(context.Background(), rounds[0]); done++ }()
+	go func() { _ = s.submitValidatorRegistrationsForAccounts(context.Background(), rounds[1]); done++ }()
+	left := vnd.Quiesce()
+	vnd.Assert(left == 0 && done == 2, "C17.tworounds.everything-returns")
+	vnd.Cover("C17.tworounds.overlap-explored")
+}
